@@ -1,5 +1,5 @@
 (* Correspondence for C09 (uamiv stream): reference codec <-> library, both directions. *)
-From PNC Require Export Base.Util Base.Words Model.Uamiv.
+From PNC Require Export Base.Util Base.Words Model.Uamiv Model.Lbdy.
 Local Open Scope Z_scope.
 
 Record ucase := Case {
@@ -74,9 +74,97 @@ Definition region (c : ucase) : nat := 0%nat.
    `ref` its byte stream, `written` what the LIBRARY writer produced from the file the library reader
    opened.  F: the Python framing is the Coq framing.  S: the Coq reference decoder walks the library
    writer's output (markers agree and tile the file exactly) and recovers exactly the records. *)
+(* Third kind of case: CAMx lateral-boundary files, modelled in Model/Lbdy.v to the same depth as uamiv. *)
+Record lcase := LCase {
+  lc_l : lbdy;                         (* the generated content *)
+  lc_hours : list (Z * Z);             (* begin / end hour of each step as integers *)
+  lc_ref : list word;                  (* file produced by the Python reference encoder (camxfmt.lb_records) *)
+  lc_cut : Z;                          (* number of BYTES of lc_ref given to the library *)
+  lc_open_ok : bool;                   (* library Memmap reader opened the file *)
+  lc_view : lview;                     (* what it presented (zeros when it raised) *)
+  lc_tflag : list (Z * Z);             (* TFLAG[:,0,:] *)
+  lc_etflag : list (Z * Z);            (* ETFLAG[:,0,:] *)
+  lc_full_etflag : list (Z * Z);       (* ETFLAG the library presents for the WHOLE file (= lc_etflag when whole) *)
+  lc_py_ok : bool;                     (* what the words do not carry, judged in Python: variable names and order,
+                                          array shapes (TSTEP, ncell, LAY), NAME/NOTE/ITZON attributes *)
+  lc_w_ok : bool;                      (* library writer returned (whole files only) *)
+  lc_written : list word               (* what it produced from the opened file *)
+}.
+
+Definition quad_eqb (a b : quad) : bool :=
+  zlist_eqb (q_w a) (q_w b) && zlist_eqb (q_e a) (q_e b) && zlist_eqb (q_s a) (q_s b) && zlist_eqb (q_n a) (q_n b).
+Definition lview_eqb (a b : lview) : bool :=
+  (lv_nspec a =? lv_nspec b) && (lv_nx a =? lv_nx b) && (lv_ny a =? lv_ny b) && (lv_nz a =? lv_nz b)
+  && (lv_ntimes a =? lv_ntimes b) && zll_eqb (lv_names a) (lv_names b)
+  && zll_eqb (lv_dates a) (lv_dates b) && list_eqb (list_eqb quad_eqb) (lv_data a) (lv_data b).
+(* the time-header words are not exposed by the reader: compared through TFLAG/ETFLAG *)
+Definition lview_eqb_nd (a b : lview) : bool :=
+  (lv_nspec a =? lv_nspec b) && (lv_nx a =? lv_nx b) && (lv_ny a =? lv_ny b) && (lv_nz a =? lv_nz b)
+  && (lv_ntimes a =? lv_ntimes b) && zll_eqb (lv_names a) (lv_names b)
+  && list_eqb (list_eqb quad_eqb) (lv_data a) (lv_data b).
+Definition lsteps_eqb (a b : list (list word * list quad)) : bool :=
+  list_eqb (fun x y => zlist_eqb (fst x) (fst y) && list_eqb quad_eqb (snd x) (snd y)) a b.
+Definition lbdy_eqb (a b : lbdy) : bool :=
+  zlist_eqb (l_name a) (l_name b) && zlist_eqb (l_note a) (l_note b) && (l_itzon a =? l_itzon b)
+  && zlist_eqb (l_dates a) (l_dates b) && zlist_eqb (l_gpre a) (l_gpre b)
+  && (l_nx a =? l_nx b) && (l_ny a =? l_ny b) && (l_nz a =? l_nz b) && zlist_eqb (l_gpost a) (l_gpost b)
+  && zll_eqb (l_spc a) (l_spc b) && quad_eqb (l_edges a) (l_edges b) && lsteps_eqb (l_steps a) (l_steps b).
+
+Definition lb_bdates (l : lbdy) := map (fun st => nth 0 (fst st) 0) (l_steps l).
+Definition lb_edates (l : lbdy) := map (fun st => nth 2 (fst st) 0) (l_steps l).
+Definition lwhole (c : lcase) : bool := lc_cut c =? 4 * Z.of_nat (length (lc_ref c)).
+Definition lgiven (c : lcase) : list word := firstn (Z.to_nat (lc_cut c / 4)) (lc_ref c).
+
+(* F: reference encoder == Coq spec encoder; the reader model predicts the library (dims, names, data, TFLAG, ETFLAG;
+   raising on cut files); the writer model (own end-date derivation, edge
+   definitions copied from the opened file) predicts the bytes the library writer produced. *)
+Definition lcheckF (c : lcase) : bool :=
+  let bh := map fst (lc_hours c) in
+  zlist_eqb (lb_enc (lc_l c)) (lc_ref c)
+  && match lb_mm_read (lgiven c) (lc_cut c) with
+     | Ok v => lc_open_ok c && lview_eqb v (lc_view c)
+               && list_eqb pair_eqb (lb_tflag v bh) (lc_tflag c)
+               && list_eqb pair_eqb (lb_etflag v (map snd (lc_hours c))) (lc_etflag c)
+               && (negb (lwhole c)
+                   || (lc_w_ok c && zlist_eqb (lc_written c) (lb_enc (lb_derive (lc_l c) bh false))))
+     | Err => negb (lc_open_ok c)
+     end.
+
+(* S split so that the region can name WHICH clause fails *)
+Definition lS_etflag (c : lcase) : bool :=
+  list_eqb pair_eqb (lc_etflag c) (spec_camx_time (lb_edates (lc_l c)) (map snd (lc_hours c))).
+Definition lS_rest (c : lcase) : bool :=
+  lc_py_ok c && lc_open_ok c && lview_eqb (lc_view c) (lb_view_of (lc_l c))
+  && list_eqb pair_eqb (lc_tflag c) (spec_camx_time (lb_bdates (lc_l c)) (map fst (lc_hours c)))
+  && lc_w_ok c
+  && match lb_dec (lc_written c) with Some l' => lbdy_eqb l' (lc_l c) | None => false end.
+(* whole file: reader presents exactly the content incl. begin AND end time flags; the reference decoder recovers
+   the content from the library writer's output.  cut file (C14): error, or exactly k complete steps whose data and
+   time flags are those of the content and of what the library presents for the full file. *)
+Definition lcheckS (c : lcase) : bool :=
+  if lwhole c then lS_rest c && lS_etflag c
+  else
+    negb (lc_open_ok c)
+    || (let k := Z.to_nat (lv_ntimes (lc_view c)) in
+        lc_py_ok c && (0 <? lv_ntimes (lc_view c)) && (Z.of_nat k <=? Z.of_nat (length (l_steps (lc_l c))))
+        && lview_eqb (lc_view c) (lb_view_of (lb_truncate_steps k (lc_l c)))
+        && list_eqb pair_eqb (lc_tflag c) (firstn k (spec_camx_time (lb_bdates (lc_l c)) (map fst (lc_hours c))))
+        && list_eqb pair_eqb (lc_etflag c) (firstn k (spec_camx_time (lb_edates (lc_l c)) (map snd (lc_hours c))))
+        && list_eqb pair_eqb (lc_etflag c) (firstn k (lc_full_etflag c))).
+
+(* region 1: a step begins at 23h on the last day of a year (the writer derives the end date as YYJJJ+1).
+   (region 17, ETFLAG carrying the begin time, was retired by the repair fe376a5.) *)
+Definition lb_year_end (l : lbdy) (hours : list (Z * Z)) : bool :=
+  existsb (fun p => let bd := nth 0 (fst (fst p)) 0 in let bh := fst (snd p) in
+                    (bh =? 23) && negb (next_yyjjj bd =? bd + 1))
+          (combine (l_steps l) hours).
+Definition lregion (c : lcase) : nat :=
+  if lwhole c && lb_year_end (lc_l c) (lc_hours c) then 1%nat else 0%nat.
+
 Inductive case_t :=
 | U (c : ucase)
-| R (ref : list word) (recs : list (list word)) (w_ok : bool) (written : list word).
+| R (ref : list word) (recs : list (list word)) (w_ok : bool) (written : list word)
+| L (c : lcase).
 
 Definition check (c : case_t) : verdict :=
   match c with
@@ -85,4 +173,5 @@ Definition check (c : case_t) : verdict :=
       (zlist_eqb (frame recs) ref,
        if w_ok then match unframe_all written with Some rs => zll_eqb rs recs | None => false end else true,
        0%nat)
+  | L c => (lcheckF c, lcheckS c, lregion c)
   end.
